@@ -44,6 +44,7 @@ class TlcResult:
     coverage: Dict[str, int] = field(default_factory=dict)   # action name -> distinct states found by it
     output: str = ""
     trace: List[str] = field(default_factory=list)           # textual error trace states (if any)
+    traces: int = 0                                            # simulation mode: behaviours generated
 
 
 _STATS = re.compile(r"(\d+) states generated, (\d+) distinct states found, (\d+) states left on queue")
@@ -68,7 +69,10 @@ def cfg_text(*, init: str = "Init", next: str = "Next", spec: Optional[str] = No
     if constants:
         out.append("CONSTANTS")
         for k, v in constants.items():
-            out.append(f"  {k} = {fmt(v)}")
+            if isinstance(v, Subst):
+                out.append(f"  {k} <- {v.name}")
+            else:
+                out.append(f"  {k} = {fmt(v)}")
     for inv in invariants or []:
         out.append(f"INVARIANT {inv}")
     for p in properties or []:
@@ -108,6 +112,29 @@ def fmt(v: Any) -> str:
     raise TlcError(f"cannot format {v!r}")
 
 
+class Subst:
+    """cfg operator substitution: CONSTANT <- DefinitionInTheMCModule"""
+    def __init__(self, name: str):
+        self.name = name
+
+
+def tla(v: Any) -> str:
+    """Python value -> TLA+ expression text (for generated MC modules); negative ints allowed."""
+    if isinstance(v, bool):
+        return "TRUE" if v else "FALSE"
+    if isinstance(v, int):
+        return str(v) if v >= 0 else f"(0 - {-v})"
+    if isinstance(v, str):
+        return '"' + v.replace("\\", "\\\\").replace('"', '\\"') + '"'
+    if isinstance(v, (list, tuple)):
+        return "<<" + ", ".join(tla(x) for x in v) + ">>"
+    if isinstance(v, (set, frozenset)):
+        return "{" + ", ".join(sorted(tla(x) for x in v)) + "}"
+    if isinstance(v, dict):
+        return "[" + ", ".join(f"{k} |-> {tla(x)}" for k, x in v.items()) + "]"
+    raise TlcError(f"cannot render {v!r}")
+
+
 class Raw:
     """A literal piece of cfg text (model value, operator substitution `<- Name` is handled by key)."""
     def __init__(self, text: str):
@@ -121,6 +148,13 @@ def parse_output(out: str, cmd: str, wall: float) -> TlcResult:
     m = _DEPTH.search(out)
     if m:
         res.depth = int(m.group(1))
+    m = re.search(r"The number of states generated: (\d+)", out)
+    if m and not res.generated:      # simulation mode: states checked along random behaviours
+        res.generated = int(m.group(1))
+    m = re.search(r"(\d+) traces generated", out)
+    if m:
+        res.depth = max(res.depth, 0)
+        res.traces = int(m.group(1))
     for m in _COV.finditer(out):
         res.coverage[m.group(1)] = res.coverage.get(m.group(1), 0) + int(m.group(4))
     for line in out.splitlines():
